@@ -7,7 +7,7 @@ import (
 	"fmt"
 	"go/ast"
 	"go/types"
-	"strings"
+	"go/token"
 
 	"golang.org/x/tools/go/packages"
 )
@@ -23,8 +23,8 @@ modifying or recycling one changes the other. The revcomp back-pointer is the ta
 	})
 	register(&Rule{
 		ID: "AL-2", Props: []string{"C07", "C05"}, Min: 4,
-		Doc: `recycling nils what it recycles: in BioSequence.Recycle every RecycleSlice(&s.f) / RecycleAnnotation(&s.f) is immediately followed by s.f = nil, so a
-recycled buffer handed to another sequence is never reachable from the recycled one.`,
+		Doc: `recycling lets go of what it recycles: BioSequence.Recycle assigns nil to every field of the receiver that holds a slice or a map (the fields are enumerated from the type), so a
+vector released by one sequence is never reachable from the recycled shell.`,
 		Run: runAL2,
 	})
 }
@@ -139,45 +139,54 @@ func runAL2(c *Ctx, s *Sink) {
 		return
 	}
 	info := p.TypesInfo
-	var check func(list []ast.Stmt)
-	check = func(list []ast.Stmt) {
-		for i, st := range list {
-			switch x := st.(type) {
-			case *ast.IfStmt:
-				check(x.Body.List)
-				continue
-			case *ast.BlockStmt:
-				check(x.List)
+	if fd.Recv == nil || len(fd.Recv.List) != 1 || len(fd.Recv.List[0].Names) != 1 {
+		s.Undecided(nil, "pkg/obiseq.(*BioSequence).Recycle", fd.Pos(), "no named receiver")
+		return
+	}
+	recv := info.ObjectOf(fd.Recv.List[0].Names[0])
+	// the fields of BioSequence that hold a slice or a map
+	t := recv.Type()
+	if pt, ok := t.(*types.Pointer); ok {
+		t = pt.Elem()
+	}
+	st, ok := t.Underlying().(*types.Struct)
+	if !ok {
+		s.Undecided(nil, "pkg/obiseq.(*BioSequence).Recycle", fd.Pos(), "the receiver is not a struct")
+		return
+	}
+	cleared := map[string]token.Pos{}
+	ast.Inspect(fd.Body, func(n ast.Node) bool {
+		as, ok := n.(*ast.AssignStmt)
+		if !ok || as.Tok != token.ASSIGN {
+			return true
+		}
+		for i, l := range as.Lhs {
+			sel, ok := ast.Unparen(l).(*ast.SelectorExpr)
+			if !ok || rootObj(info, sel.X) != recv {
 				continue
 			}
-			es, ok := st.(*ast.ExprStmt)
-			if !ok {
-				continue
+			var r ast.Expr
+			if len(as.Rhs) == len(as.Lhs) {
+				r = as.Rhs[i]
 			}
-			call, ok := es.X.(*ast.CallExpr)
-			if !ok || len(call.Args) != 1 {
-				continue
+			if id, ok := ast.Unparen(r).(*ast.Ident); ok && id.Name == "nil" {
+				cleared[sel.Sel.Name] = as.Pos()
 			}
-			fn := fullName(callee(info, call))
-			if !strings.HasSuffix(fn, "/pkg/obiseq.RecycleSlice") && !strings.HasSuffix(fn, "/pkg/obiseq.RecycleAnnotation") {
-				continue
-			}
-			u, ok := ast.Unparen(call.Args[0]).(*ast.UnaryExpr)
-			if !ok {
-				continue
-			}
-			field := types.ExprString(u.X)
-			key := "pkg/obiseq.(*BioSequence).Recycle:" + field
-			ok = false
-			if i+1 < len(list) {
-				if as, isA := list[i+1].(*ast.AssignStmt); isA && len(as.Lhs) == 1 && len(as.Rhs) == 1 && types.ExprString(as.Lhs[0]) == field {
-					if id, isI := as.Rhs[0].(*ast.Ident); isI && id.Name == "nil" {
-						ok = true
-					}
-				}
-			}
-			s.Check(ok, nil, key, call.Pos(), "recycled then set to nil", "the buffer "+field+" is handed back to the pool but stays referenced by the recycled sequence: a later use of that sequence (or a second Recycle) corrupts the record that received the buffer")
+		}
+		return true
+	})
+	for i := 0; i < st.NumFields(); i++ {
+		f := st.Field(i)
+		switch f.Type().Underlying().(type) {
+		case *types.Slice, *types.Map:
+		default:
+			continue
+		}
+		key := "pkg/obiseq.(*BioSequence).Recycle:sequence." + f.Name()
+		if pos, ok := cleared[f.Name()]; ok {
+			s.Pass(nil, key, pos, "the recycled sequence lets go of the vector (set to nil)")
+		} else {
+			s.Fail(nil, key, fd.Pos(), "the buffer "+f.Name()+" stays referenced by the recycled sequence: a later use of that sequence (or a second Recycle) touches a vector the program considers released")
 		}
 	}
-	check(fd.Body.List)
 }
